@@ -1442,6 +1442,35 @@ class Interp:
                     back = cal.rsplit('::', 1)[-1] == 'next_back'
                     s2 = st.set(recv['bind'], ('vec', tuple(els[:-1] if back else els[1:]))).event(('call', cal, (old,), e))
                     return [Out('val', ('ctor', 'Some', (els[-1] if back else els[0],)), s2)]
+        if self.exact_seqs and cal.startswith('core::iter::adapters::peekable::Peekable::<I>::') and cal.rsplit('::', 1)[-1] in ('peek', 'next_if', 'next_if_eq') \
+                and len(e['args']) == (0 if cal.endswith('::peek') else 1):
+            # Peekable over known elements, held in a local (peekable() itself is transparent: the same elements):
+            #   peek()          Some(the next element) without consuming it, None when there is none
+            #   next_if(p)      the next element is consumed and returned exactly when there is one and p(&it) holds; otherwise None and
+            #                   nothing is consumed;   next_if_eq(x) = next_if(|it| it == x)
+            recv = hirq.peel_refs(e['recv'])
+            if recv['k'] == 'Path' and recv.get('res') == 'local':
+                old = st.env.get(recv['bind'])
+                els = self.listed_elems(old) if old is not None else None
+                if els is not None:
+                    name = cal.rsplit('::', 1)[-1]
+                    if name == 'peek':
+                        return [Out('val', ('ctor', 'Some', (els[0],)) if els else ('ctor', 'None', ()), st)]
+                    res, abn = self.seq(e['args'], st)
+                    outs = list(abn)
+                    for (a,), s in res:
+                        if not els:
+                            outs.append(Out('val', ('ctor', 'None', ()), s)); continue
+                        tests = self.apply(a, [els[0]], e, s) if name == 'next_if' else [Out('val', bin_term('Eq', els[0], a), s)]
+                        for o in tests:
+                            if o.kind != 'val':
+                                outs.append(o); continue
+                            for truth, s3 in self.decide(o.val, o.st):
+                                if truth:
+                                    outs.append(Out('val', ('ctor', 'Some', (els[0],)), s3.set(recv['bind'], ('vec', tuple(els[1:]))).event(('call', cal, (old, a), e))))
+                                else:
+                                    outs.append(Out('val', ('ctor', 'None', ()), s3))
+                    return outs
         if self.exact_seqs and cal.rsplit('::', 1)[-1] == 'extend' and 'alloc::vec::Vec<' in cal and len(e['args']) == 1:
             # vec.extend(seq) where the local vector and the sequence are both known element by element: the pushes, in order
             recv = hirq.peel_refs(e['recv'])
